@@ -108,6 +108,13 @@ func sharingConfigs(env *engine.Env) []fixture.Doc {
 		d["ipk"] = map[string]any{"fields": map[string]any{"Maintainer": "someone else", "Package": "x", "Architecture": "y", "Custom": "kept"}}
 		d["deb"] = map[string]any{"fields": map[string]any{"Maintainer": "dup", "Custom": "kept"}}
 	}))
+	// relations written the Debian way (every format gets the text as configured); an override key in mixed case
+	docs = append(docs, mk(plain, func(d fixture.Doc) {
+		d["depends"] = []any{"libc6 (>= 2.30)", "zlib1g (<< 2)", "plain"}
+		d["conflicts"] = []any{"old-pkg (<< 1.0)"}
+		d["provides"] = []any{"virt (= 1.0)"}
+		d["overrides"] = map[string]any{"Deb": map[string]any{"depends": []any{"mixed-case-key"}}, "rpm": map[string]any{"suggests": []any{"s"}}}
+	}))
 	// a platform other than linux (deb, rpm and ipk take one)
 	docs = append(docs, mk(plain, func(d fixture.Doc) { d["platform"] = "freebsd"; d["arch"] = "arm64" }))
 	// everything together
